@@ -121,8 +121,16 @@ package controllers
 //@   ensures [C05] pfViolations() > 0 ==> W() == old(W())
 //@   ensures tdPending() == old(tdPending())
 //@   ensures gomem_unchanged()
+//@   ghost tdObjNotDone() := old(tdObjNotDone()) + (if err == nil && !cleanupDone then 1 else 0)
+//@   ensures [C04] tdObjNotDone() == old(tdObjNotDone()) + (if err == nil && !cleanupDone then 1 else 0)
 
+// a phase is reported torn down only if every one of its objects was (conjunction over all objects, not the last one)
 //@ func package-operator.run/internal/controllers.(*PhaseReconciler).TeardownPhase
+//@   ensures [C04] err == nil && cleanupDone ==> tdObjNotDone() == old(tdObjNotDone())
+//@   loop 1 invariant [C04] 0 <= idx && idx <= len(phase.Objects) && tdObjNotDone() >= old(tdObjNotDone())
+// the two usual ways of keeping the conjunction: a count of finished objects, or a flag cleared by an unfinished one
+//@   loop 1 invariant? [C04] loopint + (tdObjNotDone() - old(tdObjNotDone())) == idx
+//@   loop 1 invariant? [C04] loopbool == (tdObjNotDone() == old(tdObjNotDone()))
 //@   requires [C04] !tdPending()
 //@   ghost tdPending() := old(tdPending()) || err != nil || !cleanupDone
 //@   ensures [C04] tdPending() == (old(tdPending()) || err != nil || !cleanupDone)
@@ -145,3 +153,14 @@ package controllers
 //@ func package-operator.run/internal/controllers.EnsureCachedFinalizer
 //@   ghost finEnsured(obj) := result == nil
 //@   ensures [C15] finEnsured(obj) == (result == nil)
+
+//@ props C01
+// every declared previous revision is looked up into an object of its own: the result has one distinct entry per
+// declared revision (adoption from "one of the declared previous revisions" is decided over this list)
+//@ func package-operator.run/internal/controllers.(*PreviousRevisionLookup).Lookup
+//@   ensures [C01] result1 == nil ==> (forall a int, b int :: 0 <= a && a < b && b < len(result0) ==> ival(result0[a]) != ival(result0[b]))
+//@   ensures [C01] result1 == nil ==> (forall k int :: 0 <= k && k < len(result0) ==> fresh(result0[k]) && result0[k] != nil)
+//@   loop 1 invariant 0 <= idx && idx <= len(previousSets)
+//@   loop 1 invariant forall k int :: 0 <= k && k < idx ==> fresh(previousSets[k]) && allocated(previousSets[k]) && previousSets[k] != nil
+//@   loop 1 invariant forall a int, b int :: 0 <= a && a < b && b < idx ==> ival(previousSets[a]) != ival(previousSets[b])
+//@   loop 1 invariant fresh(sarr(previousSets)) && allocated(sarr(previousSets))
